@@ -219,39 +219,80 @@ def takeDigits : List Char → Nat → Nat → Nat × Nat × List Char
 
 def intMax : Nat := 2147483647
 
+/-- an optional sign in front of a number: (is it `-`, rest) -/
+def splitSign (cs : List Char) : Bool × List Char :=
+  match cs with
+  | '-' :: r => (true, r)
+  | '+' :: r => (false, r)
+  | _ => (false, cs)
+
 /-- `istream >> int`: skip white space, optional sign, at least one digit; a value that does
     not fit `int` sets failbit -/
 def readInt (cs : List Char) : Option (Int × List Char) :=
   let cs := cs.dropWhile isSpace
-  let (neg, cs) := match cs with
-    | '-' :: r => (true, r)
-    | '+' :: r => (false, r)
-    | _ => (false, cs)
+  let (neg, cs) := splitSign cs
   let (v, k, rest) := takeDigits cs 0 0
   if k = 0 then none
   else if neg then (if v ≤ intMax + 1 then some (-(v : Int), rest) else none)
   else (if v ≤ intMax then some ((v : Int), rest) else none)
+
+/-- the fraction of a decimal: `. D*` continues the mantissa `ip`; (mantissa, number of fraction digits, rest) -/
+def readFrac (ip : Nat) (r1 : List Char) : Nat × Nat × List Char :=
+  match r1 with
+  | '.' :: r => takeDigits r ip 0
+  | _ => (ip, 0, r1)
+
+/-- the exponent of a decimal: nothing, or `(e|E) [+-] D+` (an `e` without digits makes `strtod`'s result
+    differ from the extracted text: failbit) -/
+def readExp (mant fd : Nat) (r2 : List Char) : Option ((Nat × Int) × List Char) :=
+  match r2 with
+  | c :: r =>
+    if c = 'e' || c = 'E' then
+      let (eneg, r) := splitSign r
+      let (ev, ek, r3) := takeDigits r 0 0
+      if ek = 0 then none
+      else some ((mant, (if eneg then -(ev : Int) else (ev : Int)) - (fd : Int)), r3)
+    else some ((mant, -(fd : Int)), r2)
+  | [] => some ((mant, -(fd : Int)), [])
 
 /-- `istream >> double` when the next character is known to be a digit (libstdc++
     `_M_extract_float` + `strtod` on the extracted text): `D+ [. D*] [(e|E) [+-] D+]`; the result
     is (mantissa, decimal exponent) and must be followed by end of input for `dms.eof()` -/
 def readSeconds (cs : List Char) : Option ((Nat × Int) × List Char) :=
   let (ip, _, r1) := takeDigits cs 0 0
-  let (mant, fd, r2) := match r1 with
-    | '.' :: r => let (v, k, r') := takeDigits r ip 0; (v, k, r')
-    | _ => (ip, 0, r1)
-  match r2 with
-  | c :: r =>
-    if c = 'e' || c = 'E' then
-      let (eneg, r) := match r with
-        | '-' :: t => (true, t)
-        | '+' :: t => (false, t)
-        | _ => (false, r)
-      let (ev, ek, r3) := takeDigits r 0 0
-      if ek = 0 then none
-      else some ((mant, (if eneg then -(ev : Int) else (ev : Int)) - (fd : Int)), r3)
-    else some ((mant, -(fd : Int)), r2)
-  | [] => some ((mant, -(fd : Int)), [])
+  let (mant, fd, r2) := readFrac ip r1
+  readExp mant fd r2
+
+/-- `DBL_MAX` plus half a unit in its last place: a decimal at or above it converts to infinity,
+    and libstdc++'s `operator>>(double&)` then stores `DBL_MAX` and sets failbit -/
+def dblOverflow : Nat := 2 ^ 1024 - 2 ^ 970
+
+/-- does `mantissa · 10^exp` convert to a finite double?  (`dms >> s` fails otherwise; an underflow
+    to zero is accepted.)  The guards only keep the powers of ten small. -/
+def secFits (p : Nat × Int) : Bool :=
+  match p.2 with
+  | Int.ofNat e => p.1 == 0 || (decide (e ≤ 309) && decide (p.1 * 10 ^ e < dblOverflow))
+  | Int.negSucc k => decide (p.1.log2 ≤ k) || decide (p.1 < dblOverflow * 10 ^ (k + 1))
+
+/-- `-` digit…: the seconds, then `d < 0 || m < 0 || s < 0` and `dms.eof()` -/
+def parseSec (negative : Bool) (d m : Int) (cs : List Char) : Option (Bool × Int × Int × (Nat × Int)) :=
+  match cs with
+  | '-' :: c :: cs' =>
+    if !isDigit c then none else
+    match readSeconds (c :: cs') with
+    | some (s, []) => if !secFits s || d < 0 || m < 0 then none else some (negative, d, m, s)
+    | _ => none
+  | _ => none
+
+/-- `-` digit…: the minutes -/
+def parseMin (negative : Bool) (d : Int) (cs : List Char) : Option (Bool × Int × Int × (Nat × Int)) :=
+  match cs with
+  | '-' :: c :: cs' =>
+    if !isDigit c then none else
+    match readInt (c :: cs') with
+    | none => none
+    | some (m, cs) => parseSec negative d m cs
+  | _ => none
 
 /-- the syntactic part of `deg2gon`: sign and the three fields (seconds as mantissa·10^exp);
     `none` is `return false` -/
@@ -264,21 +305,7 @@ def parseDms (str : String) : Option (Bool × Int × Int × (Nat × Int)) :=
     if cs.isEmpty then none else
     match readInt cs with
     | none => none
-    | some (d, cs) =>
-      match cs with
-      | '-' :: c :: cs' =>
-        if !isDigit c then none else
-        match readInt (c :: cs') with
-        | none => none
-        | some (m, cs) =>
-          match cs with
-          | '-' :: c :: cs' =>
-            if !isDigit c then none else
-            match readSeconds (c :: cs') with
-            | some (s, []) => if d < 0 || m < 0 then none else some (negative, d, m, s)
-            | _ => none
-          | _ => none
-      | _ => none
+    | some (d, cs) => parseMin negative d cs
 
 /-- `mantissa · 10^exp` in the scalar type (what `strtod` returns, up to its rounding) -/
 def sciToK (p : Nat × Int) : K :=
